@@ -755,6 +755,39 @@ def translate(repo):
           "Definition src_pfs_push : list pstmt := [%s]." % "; ".join(pf["push"]),
           "Definition src_pfs_new_shape_ok : bool := %s." % ("true" if pf["new_ok"] else "false"), ""]
 
+    # ---- src/token_set.rs: TokenSet::new, the three ways to take a token, Token::drop -- statement by statement
+    tk = dict(new=[], drop=[], takes=[])
+    try:
+        tsrc = read(repo, "src/token_set.rs")
+        i = tsrc.index("impl Drop for Token")
+        body = re.sub(r"\s+", "", fn_body(tsrc[i:], "fn drop"))
+        if body == "let_=self.0.try_send(());":
+            tk["drop"] = ["TDTrySendIgnore"]
+        else:
+            raise ValueError("Token::drop %r" % body[:60])
+        j = tsrc.index("impl TokenSet")
+        ts = tsrc[j:]
+        body = re.sub(r"\s+", "", fn_body(ts, "pub fn new"))
+        m = re.fullmatch(r"let\(sender,receiver\)=sync_channel\((\w+)\);for_in0\.\.(\w+)\{sender\.try_send\(\(\)\)\.unwrap\(\);\}Self\(sender,receiver\)", body)
+        if not m or m.group(1) != "size" or m.group(2) != "size":
+            raise ValueError("TokenSet::new %r" % body[:80])
+        tk["new"] = ["TNChannelOfSize", "TNFillTrySendUnwrap", "TNSelf"]
+        for fn, pat in (("pub async fn async_wait_token", r"self\.1\.async_recv\(\)\.await\.unwrap\(\);Token\(self\.0\.clone\(\)\)"),
+                        ("pub fn wait_token", r"self\.1\.recv\(\)\.unwrap\(\);Token\(self\.0\.clone\(\)\)"),
+                        ("pub fn wait_token_timeout", r"matchself\.1\.recv_timeout\(timeout\)\{Ok\(\(\)\)=>Ok\(Token\(self\.0\.clone\(\)\)\),Err\(RecvTimeoutError::Timeout\)=>Err\(TimeOut\),Err\(RecvTimeoutError::Disconnected\)=>unreachable!\(\),\}")):
+            body = re.sub(r"\s+", "", fn_body(ts, fn + "("))
+            if not re.fullmatch(pat, body):
+                raise ValueError("%s %r" % (fn, body[:80]))
+            tk["takes"].append("TTRecvThenCloneSender")
+    except Exception as e:   # noqa
+        P.append("src/token_set.rs: cannot translate (%s)" % e)
+        tk = dict(new=[], drop=[], takes=[])
+    L += ["(* src/token_set.rs: TokenSet::new, Token::drop and the three take functions (async_wait_token, wait_token,",
+          "   wait_token_timeout), statement by statement *)",
+          "Definition src_ts_new : list ts_new_stmt := [%s]." % "; ".join(tk["new"]),
+          "Definition src_ts_drop : list ts_drop_stmt := [%s]." % "; ".join(tk["drop"]),
+          "Definition src_ts_takes : list ts_take_stmt := [%s]." % "; ".join(tk["takes"]), ""]
+
     # ---- src/headers.rs: HeaderList::{add, get_only, get_all, remove_only, remove_all} -- loop shapes, the comparison,
     #      the Vec method that takes a header out
     hd = dict(cmp="", rm="")
@@ -803,7 +836,7 @@ def translate(repo):
     items = [("chunk", "src/util.rs"), ("event_queue", "src/response.rs"), ("conn_buf", "src/http_conn.rs HttpConn.buf"), ("conn_guards", "src/http_conn.rs state guards"),
              ("time", "src/time.rs"), ("content_type", "src/content_type.rs"), ("log_prio", "src/log/logger.rs log()"),
              ("event_fmt", "src/event.rs"), ("regex", "src/head.rs"), ("cookie", "src/cookie.rs"), ("request", "src/request.rs"),
-             ("json", "src/log/tag_value.rs"), ("jsonl", "src/log/logger.rs write_jsonl"), ("writer", "src/log/log_file_writer.rs"), ("headers", "src/headers.rs"), ("pfs", "src/log/prefix_file_set.rs")]
+             ("json", "src/log/tag_value.rs"), ("jsonl", "src/log/logger.rs write_jsonl"), ("writer", "src/log/log_file_writer.rs"), ("headers", "src/headers.rs"), ("pfs", "src/log/prefix_file_set.rs"), ("token_set", "src/token_set.rs")]
     L.append("(* what the translator could not read, per item (0 everywhere = the translation is complete) *)")
     for key, prefix in items:
         L.append("Definition src_problems_%s : nat := %d." % (key, sum(1 for p in P if p.startswith(prefix))))
